@@ -43,6 +43,15 @@ def fault_arm(seed: int, share: float = 0.3, rate: float = 0.3) -> float:
     return rate if Streams(seed)("fault-arm").random() < share else 0.0
 
 
+def rewritten_between_sessions(seed: int, events: list, hows=("bool_words", "strip_tblPr", "strip_cell_txBody"), rate: float = 0.3) -> None:
+    """Between two sessions the stored file is rewritten by another producer in an equivalent spelling (restart / reopen events get an
+    `xform`): xsd:boolean values as words, optional children omitted."""
+    rx = Streams(seed)("rewrite-between-sessions")
+    for e in events:
+        if e["op"] in ("restart", "reopen") and "xform" not in e and rx.random() < rate:
+            e["xform"] = [{"kind": "rewrite_slides", "how": rx.choice(list(hows))}]
+
+
 def gen_history(seed: int, *, n_events, families=None, always=(), start=None, fault_rate=0.0,
                 src_fault_rate=0.0, ckpt=0.12, reopen=0.05, restart=0.03, observe=0.03, jump=0.02,
                 fork=0.01, every_event_ckpt=False, forms=("stream", "stream", "path", "dir", "path_keep"),
